@@ -47,6 +47,8 @@ def vandalise(a):
 
     for n in list(astx.walk_nodes(a)):
         if isinstance(n, ast.Call):
+            if not hasattr(n, "keywords"):
+                n.keywords = []  # (a hand-made Call node may lack the optional field)
             n.keywords.append(ast.keyword(arg="added_by_backend", value=ast.Constant(value=1)))
             n.args.append(ast.Constant(value="backend"))
         elif isinstance(n, ast.Lambda):
@@ -309,6 +311,15 @@ class History:
             "a dataset whose executor is a plain function returning an awaitable"
 
             def execute_result_async(self, a, title=None):
+                if self.fail_next and next(_uid) % 2:
+                    # a plain function can fail before it has anything to hand back - with a TypeError of its own, say
+                    self.fail_next = False
+                    n = next(_uid)
+                    exc = ExecTypeFailure(f"failure#{n} (raised by the plain function itself)")
+                    with hist.lock:
+                        hist.log.append({"ev": "enter", "n": n, "ds": self.name, "self": self, "ast_id": id(a), "dump": astx.dump_fields(a), "title": title, "ast": a, "building": hist.building, "thread": threading.get_ident()})
+                        hist.log.append({"ev": "leave", "n": n, "ds": self.name, "exc": exc, "dump_after": astx.dump_fields(a)})
+                    raise exc
                 return _Awaitable(HDS.execute_result_async(self, a, title))
 
         class VarHDS(HDS):
